@@ -222,8 +222,8 @@ ProbeViolated(e) ==
 (* every field is unchanged; one differing in a launch-relevant field is   *)
 (* changed; other differences are not constrained.                         *)
 (***************************************************************************)
-C14_IdenticalIsEqual(e) == (e.changed = <<>>) => e.equal
-C14_RelevantChangeDetected(e) == (\E f \in RangeC(e.changed) : f \in RangeC(e.relevant)) => ~e.equal
+C14_IdenticalIsEqual(e) == (e.changed = <<>>) => (e.equal /\ e.equalRev)
+C14_RelevantChangeDetected(e) == (\E f \in RangeC(e.changed) : f \in RangeC(e.relevant)) => (~e.equal /\ ~e.equalRev)
 CompareViolated(e) ==
   { n \in {"C14_IdenticalIsEqual", "C14_RelevantChangeDetected"} :
       ~(CASE n = "C14_IdenticalIsEqual" -> C14_IdenticalIsEqual(e)
